@@ -61,6 +61,13 @@
                                                             C03_bulk_overflow
      Set extend / collect                                   C03_s_extend_loop_lawful,
                                                             C03_s_from_iter_lawful
+     "replacing the value of a key that is already present succeeds on a full
+       container": explicitly, with hypotheses  find_idx ... = Some i  and
+       len = cap, never panics                              C03_replace_on_full_insert,
+                                                            C03_replace_on_full_checked_insert,
+                                                            C03_replace_on_full_insert_key_value
+       and what the result is (slot i rewritten, same length)
+                                                            C03_l_insert_present
      "without writing outside the container": for EVERY environment (lawful or
        not) insert_ii never reaches UB (an out-of-range unchecked write is UB in
        the model; the checked write panics) and keeps WF and the capacity
@@ -89,7 +96,7 @@
 Require Import Model.Base Model.Slots Model.MapOps Model.EntryOps Model.SetOps Model.Fmt Model.Exec.
 Require Import Proofs.Hoare Proofs.Inv Proofs.Safety Proofs.Spec Proofs.Lawful Proofs.Lawful2
                Proofs.Lawful3 Proofs.EntrySpec Proofs.Bulk Proofs.FmtSerde Proofs.ExecSafe
-               Proofs.Legacy.
+               Proofs.Legacy Proofs.Gaps.
 
 (* -------------------------------------------------------------------------- *)
 (* the insertion core and the three Map entry points                          *)
@@ -398,6 +405,84 @@ Proof. exact (@WF_len_le_cap). Qed.
 Print Assumptions C03_WF_len_le_cap.
 
 (* -------------------------------------------------------------------------- *)
+(* "replacing the value of a key that is already present succeeds on a full
+   container" (Proofs/Gaps.v): the key is present at slot i, len = cap; the call
+   cannot panic (panic postcondition False) and computes l_insert               *)
+Theorem C03_replace_on_full_insert :
+  forall (K V Q T : Type) (E : env K V Q T) (debug : bool) (ck : K -> N) (cq : Q -> N),
+  Lawful E ck cq ->
+  forall (k : K) (v : V) (i : nat) (w : world K V T),
+  WF (self w) ->
+  find_idx ck (ck k) (Spec.elems (self w)) = Some i ->
+  len (self w) = cap (self w) ->
+  wp (insert E debug k v)
+    (fun (r : option V) (w' : world K V T) =>
+       WF (self w') /\
+       cap (self w') = cap (self w) /\
+       Spec.elems (self w') = fst (fst (l_insert ck (Spec.elems (self w)) k v false)) /\
+       r = option_map snd (snd (l_insert ck (Spec.elems (self w)) k v false)) /\
+       logged w w' (match snd (l_insert ck (Spec.elems (self w)) k v false) with
+                    | Some (k', _) => ev_drops (idK E k')
+                    | None => []
+                    end))
+    (fun _ : world K V T => False)
+    w.
+Proof. exact (@replace_on_full_insert). Qed.
+Print Assumptions C03_replace_on_full_insert.
+
+Theorem C03_replace_on_full_checked_insert :
+  forall (K V Q T : Type) (E : env K V Q T) (debug : bool) (ck : K -> N) (cq : Q -> N),
+  Lawful E ck cq ->
+  forall (k : K) (v : V) (i : nat) (w : world K V T),
+  WF (self w) ->
+  find_idx ck (ck k) (Spec.elems (self w)) = Some i ->
+  len (self w) = cap (self w) ->
+  wp (checked_insert E debug k v)
+    (fun (r : option (option V)) (w' : world K V T) =>
+       WF (self w') /\
+       cap (self w') = cap (self w) /\
+       Spec.elems (self w') = fst (fst (l_insert ck (Spec.elems (self w)) k v false)) /\
+       r = Some (option_map snd (snd (l_insert ck (Spec.elems (self w)) k v false))) /\
+       logged w w' (ev_drops (idK E k)))
+    (fun _ : world K V T => False)
+    w.
+Proof. exact (@replace_on_full_checked_insert). Qed.
+Print Assumptions C03_replace_on_full_checked_insert.
+
+Theorem C03_replace_on_full_insert_key_value :
+  forall (K V Q T : Type) (E : env K V Q T) (debug : bool) (ck : K -> N) (cq : Q -> N),
+  Lawful E ck cq ->
+  forall (k : K) (v : V) (i : nat) (w : world K V T),
+  WF (self w) ->
+  find_idx ck (ck k) (Spec.elems (self w)) = Some i ->
+  len (self w) = cap (self w) ->
+  wp (insert_key_value E debug k v)
+    (fun (r : option (K * V)) (w' : world K V T) =>
+       WF (self w') /\
+       cap (self w') = cap (self w) /\
+       log w' = log w /\
+       Spec.elems (self w') = fst (fst (l_insert ck (Spec.elems (self w)) k v true)) /\
+       r = snd (l_insert ck (Spec.elems (self w)) k v true))
+    (fun _ : world K V T => False)
+    w.
+Proof. exact (@replace_on_full_insert_key_value). Qed.
+Print Assumptions C03_replace_on_full_insert_key_value.
+
+(* what l_insert is for a present key: same length, only slot i rewritten
+   (u = false: stored key kept, new value; u = true: key and value swapped in);
+   upd l i p = l with position i replaced by p (Proofs/Hoare.v) *)
+Theorem C03_l_insert_present :
+  forall (K V : Type) (ck : K -> N) (l : list (K * V)) (k : K) (v : V) (u : bool) (i : nat),
+  find_idx ck (ck k) l = Some i ->
+  exists (k0 : K) (v0 : V),
+    nth_error l i = Some (k0, v0) /\
+    ck k0 = ck k /\
+    l_insert ck l k v u =
+      (if u then (upd l i (k, v), i, Some (k0, v0)) else (upd l i (k0, v), i, Some (k, v0))).
+Proof. exact (@l_insert_present). Qed.
+Print Assumptions C03_l_insert_present.
+
+(* -------------------------------------------------------------------------- *)
 (* non-vacuity: m3 (Proofs/Legacy.v) is a FULL well-formed map (len = cap = 3)
    with classes 5, 6, 7; w_of m3 is the world around it                        *)
 Example C03_example_lawful :
@@ -462,3 +547,12 @@ Example C03_example_bulk :
   l_extend kcls 2 [] [(k_ 1 5, v_ 2 7); (k_ 3 5, v_ 4 8); (k_ 5 6, v_ 6 9)]
     = Some [(k_ 1 5, v_ 4 8); (k_ 5 6, v_ 6 9)].
 Proof. split; vm_compute; reflexivity. Qed.
+
+(* the hypotheses of C03_replace_on_full_* hold of the full map m3 and a key of
+   class 6 (present at slot 1); the list machine rewrites slot 1 only *)
+Example C03_example_replace_on_full_hyps :
+  find_idx kcls (kcls (k_ 9 6)) (Spec.elems (self (w_of m3))) = Some 1 /\
+  len (self (w_of m3)) = cap (self (w_of m3)) /\
+  l_insert kcls (Spec.elems m3) (k_ 9 6) (v_ 10 10) false
+    = ([(k_ 1 5, v_ 2 7); (k_ 3 6, v_ 10 10); (k_ 5 7, v_ 6 9)], 1, Some (k_ 9 6, v_ 4 8)).
+Proof. repeat split; vm_compute; reflexivity. Qed.
